@@ -25,5 +25,6 @@ Print Assumptions leaf_round_up_multiple_is_model.
 
 Theorem bump_min_alignment_is_model :
   Bump.min_alignment = BumpModel.min_alignment /\ Bump.sizeof_uintmax_t = BumpModel.min_alignment.
-Proof. split; reflexivity. Qed.
+Proof. split; reflexivity.
+Qed.
 Print Assumptions bump_min_alignment_is_model.
